@@ -1294,7 +1294,7 @@ impl SvgElement {
             self.attrs.insert_first("width", w);
             self.attrs.insert_first("height", h);
         }
-        if let ("ellipse", Some(rxy)) = (self.name.as_str(), self.attrs.pop("rxy")) {
+        if let Some(rxy) = self.attrs.pop("rxy") {
             // Split value into rx and ry
             let (rx, ry) = Self::split_compound_attr(&rxy);
             self.attrs.insert_first("rx", rx);
@@ -1384,6 +1384,8 @@ impl SvgElement {
             self.attrs.insert_first("dx", dx);
             self.attrs.insert_first("dy", dy);
         }
+        // only says which point `xy` names: without one it has nothing to say
+        self.pop_attr("xy-loc");
     }
 }
 
